@@ -59,6 +59,7 @@ class Builder(object):
         self.vars = {}
         self.ops = ops
         self.max_elems = max_elems
+        self.start_p = 0.0
 
     # -- low level ---------------------------------------------------------------------
     def emit(self, instr, var=None):
@@ -94,7 +95,13 @@ class Builder(object):
                     values = [rng.choice([-1, 1]) * rng.uniform(0.2, 2.0) for _ in range(n)]
         v = Var(0, dims, tracked, pos or all(x > 0 for x in values), self.exact,
                 max(abs(x) for x in values), leaf=True)
-        self.emit(("leaf", tracked, list(dims), values), v)
+        if tracked and self.start_p and rng.random() < self.start_p:
+            # a leaf put under tracking with start_tracking() only (keep_gradient stays false): for every
+            # operation, including user-defined ones, it is a tracked operand like any other
+            self.emit(("leaf", False, list(dims), values), v)
+            self.emit(("start", v.idx))
+        else:
+            self.emit(("leaf", tracked, list(dims), values), v)
         return v
 
     def live_vars(self, pred=None):
